@@ -14,12 +14,14 @@ func init() {
 		about: "C03 (unifying scalars, types and bounds is exact intersection), narrow: decides one structural necessary condition named among the property's own mechanisms — 'bounds are kept as lowerBound/upperBound/checks and re-validated against the final scalar': " +
 			"(a) no bound or validator conjunct is dropped on insertion: every path through the *BoundValue and Validator cases of nodeContext.insertValueConjunct records the constraint (stores it as the lower/upper bound, appends or replaces it in n.checks, re-inserts its simplification) or leaves through the explicit 'an existing check already implies it' edge; " +
 			"(b) every recorded constraint is consulted at the end: validateValue validates a concrete value against both bounds and unify validates it against every entry of n.checks, and for non-concrete results getValidators carries lowerBound, upperBound and every check (except the documented out-of-range `!=`) into the value; (c) the disjunct clone copies the checks. " +
-			"It does not decide the cell values of the bound-simplification table (SimplifyBounds: off-by-one, Ceil/Floor, kind adjustments), which is the value-level core of C03.",
+			"(d) the decision table of adt.SimplifyBounds, by finite case analysis over its control-flow graph: on every class of bound pairs that SimplifyBounds itself distinguishes (operator pair; hi<lo, hi-lo in {0,1,2} or larger; integer or float; outcome of the comparison of the two limits; string/bytes order) the set of reachable results is exactly the one the property prescribes — an error only for an empty pair (hi<lo; hi==lo with a strict side; integers with both sides strict and hi-lo==1), one of the two bounds only when it implies the other, otherwise both kept — plus opInfo's comparison/direction table and the inward/outward rounding of fractional limits for integers. " +
+			"It does not decide the arithmetic and comparisons the table is keyed on (apd Sub/Ceil/Floor/Int64, BinOpBool), nor kind adjustment outside SimplifyBounds.",
 		trust: []string{"SimplifyBounds' decision table is value-level and not decided"},
 	})
 }
 
 func checkC03(c *Ctx) {
+	checkC03Table(c)
 	f := c.fn(adtP, "(*nodeContext).insertValueConjunct")
 	g := c.graph(f)
 	info := f.Info()
